@@ -7,9 +7,9 @@ func init() {
 }
 
 func planC10(c *Ctx) epochPlan {
-	seeds := []string{"evolved", "xor", "hbd1", "disc", "hbd2", "rand", "hbd3", "hb5"}
+	seeds := []string{"evolved", "xor", "hbd1", "disc", "traits132", "hbd2", "rand", "hbd3", "hb5", "hb1"}
 	modes := []string{"whole", "phase", "par"}
-	fits := []int{6, 2, 4, 5, 3, 1}
+	fits := []int{6, 8, 2, 4, 5, 8, 3, 1}
 	pl := epochPlan{prop: "C10", oracles: oChamp}
 	if c.Quick() {
 		pl.scenarios = buildScenarios(quickCfgRows, allPolicies, seeds, modes, fits, false)
@@ -17,7 +17,7 @@ func planC10(c *Ctx) epochPlan {
 	} else {
 		pl.scenarios = buildScenarios(len(cfgRows), allPolicies, seeds, modes, fits, true)
 		pl.maxDev = 1
-		pl.deepScenarios = buildScenarios(quickCfgRows, []string{"A", "R1"}, seeds, modes, fits, false)
+		pl.deepScenarios = deepScenarios(seeds, modes, fits)
 		pl.deepDev = 2
 		pl.shards = 16
 	}
